@@ -37,6 +37,11 @@ type FileSpec struct {
 	BigEndian bool       `json:"big_endian"`
 	FileId    MsgSpec    `json:"file_id"`
 	Slots     []SlotSpec `json:"slots"`
+	// Prelude names an Encode call that fails and is made just before the
+	// File is encoded ("" none, "badstring": the same File with a string that
+	// is not UTF-8, "failwriter": the same File into a writer that refuses
+	// data after a few bytes). BuildFile ignores it.
+	Prelude string `json:"failing_encode_before,omitempty"`
 }
 
 // FileOpts steers GenFile.
